@@ -72,7 +72,10 @@ func Mv(r *Root, src, dst string) error {
 		return err
 	}
 
-	if srcDir.name == dstDir.name && srcFname == dstFname {
+	// Moving an entry onto itself: nothing to unlink. Compare the
+	// directories themselves, not their names: two different directories
+	// can have the same name.
+	if srcDir == dstDir && srcFname == dstFname {
 		return nil
 	}
 
